@@ -47,9 +47,14 @@ def rand_model(rng, chrom, gene_pool, tcount):
             "gid": rng.choice(gene_pool), "exons": ex, "other": other}
 
 
-def rand_dump_case(rng):
+def rand_dump_case(rng, records=False):
+    """`records`: the reference also carries exon_id on CDS / UTR / codon records; such a record, when reused, is printed
+    as an `other_features` entry of the model (that is how reference CDS lines reach the printer)"""
     chrom = rng.choice(G.CHROMS)
-    feats = G.rand_exon_reference(rng, chrom, n_max=6, isoquant_style=0.6)
+    if records:
+        feats = G.rand_record_reference(rng, chrom, n_max=6, isoquant_style=0.6)
+    else:
+        feats = G.rand_exon_reference(rng, chrom, n_max=6, isoquant_style=0.6)
     genedb = None if rng.random() < 0.3 else feats
     gene_pool = ["g%d" % i for i in range(1, rng.randint(2, 5))]
     dumps = []
@@ -62,7 +67,10 @@ def rand_dump_case(rng):
             if genedb and rng.random() < 0.3 and m["exons"] and all(len(e) == 2 for e in m["exons"]):
                 # reuse a reference exon so that reference ids are looked up
                 f = rng.choice(feats) if feats else None
-                if f:
+                if f and f.get("type", "exon") != "exon":
+                    m["other"] = m["other"] + [[f["start"], f["end"], f["type"]]]
+                    m["strand"] = f["strand"]
+                elif f:
                     m["exons"] = [[f["start"], f["end"]]]
                     m["strand"] = f["strand"]
             models.append(m)
